@@ -12,7 +12,7 @@ CONSTANTS
   Rels = {"none", "full1", "full65535", "port0"}
   TcpTypes = {"", "active", "passive", "so"}
   ExtKeys = {"generation", "network-cost", "x", "ufrag"}
-  ExtVals = {"", "0", "OWN", "FOREIGN"}
+  ExtVals = {"", "0", "OWN", "FOREIGN", "UTF8"}
   MaxExts = 3
 INIT InitVec
 NEXT NoNext
